@@ -40,10 +40,20 @@ type Contract struct {
 	Trusted   bool
 	Pure      bool
 	Invariants map[int][]Clause
+	Continues  map[int][]Clause // checked at every back edge of loop N
 	Unroll     map[int]int
 	File      *ContractFile
 	Line      int
 	Assumes   []string // free-text assumption notes
+	CallSites []CallSiteClause
+}
+
+// CallSiteClause: "callsite <callee> [label] expr" — expr is evaluated at every call of
+// <callee> made by the function (directly or in an inlined callee), with the callee's
+// parameter names bound to the actual arguments.
+type CallSiteClause struct {
+	Callee string
+	Clause Clause
 }
 
 type SpecFunc struct {
@@ -100,7 +110,7 @@ func (cx *Contracts) ifaceContract(t types.Type, method string) *Contract {
 	return cx.iface[n.Obj().Pkg().Path()+"."+n.Obj().Name()+"."+method]
 }
 
-var clauseRe = regexp.MustCompile(`^(requires|ensures|modifies|let|nopanic|trusted|pure|loop|assumes)\b\s*(.*)$`)
+var clauseRe = regexp.MustCompile(`^(requires|ensures|modifies|let|nopanic|trusted|pure|loop|assumes|callsite)\b\s*(.*)$`)
 var labelRe = regexp.MustCompile(`^\[([^\]]+)\]\s*(.*)$`)
 
 func loadContracts(p *Program, overlay map[string][]byte) *Contracts {
@@ -188,13 +198,13 @@ func (cx *Contracts) parseFile(cf *ContractFile, text string) {
 		case strings.HasPrefix(t, "// verif:func "):
 			flush()
 			key := strings.TrimSpace(strings.TrimPrefix(t, "// verif:func "))
-			cur = &Contract{Key: key, PkgPath: cf.PkgPath, Lets: map[string]ast.Expr{}, Invariants: map[int][]Clause{}, Unroll: map[int]int{}, File: cf, Line: i + 1}
+			cur = &Contract{Key: key, PkgPath: cf.PkgPath, Lets: map[string]ast.Expr{}, Invariants: map[int][]Clause{}, Continues: map[int][]Clause{}, Unroll: map[int]int{}, File: cf, Line: i + 1}
 			cx.bindFunc(cur)
 			cx.all = append(cx.all, cur)
 		case strings.HasPrefix(t, "// verif:extern "):
 			flush()
 			spec := strings.TrimSpace(strings.TrimPrefix(t, "// verif:extern "))
-			cur = &Contract{Key: "EXTERN " + spec, PkgPath: cf.PkgPath, Lets: map[string]ast.Expr{}, Invariants: map[int][]Clause{}, Unroll: map[int]int{}, File: cf, Line: i + 1, Trusted: true}
+			cur = &Contract{Key: "EXTERN " + spec, PkgPath: cf.PkgPath, Lets: map[string]ast.Expr{}, Invariants: map[int][]Clause{}, Continues: map[int][]Clause{}, Unroll: map[int]int{}, File: cf, Line: i + 1, Trusted: true}
 			// name(params): params is the last parenthesised group
 			j := strings.LastIndex(spec, "(")
 			name := spec
@@ -213,7 +223,7 @@ func (cx *Contracts) parseFile(cf *ContractFile, text string) {
 			flush()
 			// "// verif:iface exported.ClientState.VerifyPacketCommitment(ctx, store, cdc, height, proof, srcChain, dstChain, sequence, commitment)"
 			spec := strings.TrimSpace(strings.TrimPrefix(t, "// verif:iface "))
-			cur = &Contract{Key: "IFACE " + spec, PkgPath: cf.PkgPath, Lets: map[string]ast.Expr{}, Invariants: map[int][]Clause{}, Unroll: map[int]int{}, File: cf, Line: i + 1}
+			cur = &Contract{Key: "IFACE " + spec, PkgPath: cf.PkgPath, Lets: map[string]ast.Expr{}, Invariants: map[int][]Clause{}, Continues: map[int][]Clause{}, Unroll: map[int]int{}, File: cf, Line: i + 1}
 			cx.bindIface(cur, spec)
 			cx.all = append(cx.all, cur)
 		case strings.HasPrefix(t, "//@"):
@@ -276,6 +286,23 @@ func (cx *Contracts) finishClause(ct *Contract, kind string, cl *Clause, cf *Con
 				fmt.Sscanf(rest, "%d", &k)
 				ct.Unroll[n] = k
 				return
+			case "continue":
+				cl2 := Clause{Text: rest}
+				if m := labelRe.FindStringSubmatch(rest); m != nil {
+					cl2.Label = m[1]
+					cl2.Text = m[2]
+				}
+				ex, err := parseSpecExpr(cl2.Text)
+				if err != nil {
+					cx.errorf("%s: %s: loop continue clause %q: %v", cf.Path, ct.Key, cl2.Text, err)
+					return
+				}
+				cl2.Expr = ex
+				if cl2.Label == "" {
+					cl2.Label = fmt.Sprintf("cont%d", len(ct.Continues[n])+1)
+				}
+				ct.Continues[n] = append(ct.Continues[n], cl2)
+				return
 			case "invariant":
 				c := Clause{Text: rest}
 				if m := labelRe.FindStringSubmatch(rest); m != nil {
@@ -296,6 +323,30 @@ func (cx *Contracts) finishClause(ct *Contract, kind string, cl *Clause, cf *Con
 			}
 		}
 		cx.errorf("%s: %s: malformed loop clause %q", cf.Path, ct.Key, text)
+		return
+	}
+	if kind == "callsite" {
+		f := strings.Fields(text)
+		if len(f) < 2 {
+			cx.errorf("%s: %s: malformed callsite clause %q", cf.Path, ct.Key, text)
+			return
+		}
+		rest := strings.TrimSpace(strings.TrimPrefix(text, f[0]))
+		cc := Clause{Text: rest}
+		if m := labelRe.FindStringSubmatch(rest); m != nil {
+			cc.Label = m[1]
+			cc.Text = m[2]
+		}
+		ex, err := parseSpecExpr(cc.Text)
+		if err != nil {
+			cx.errorf("%s: %s: callsite %q: %v", cf.Path, ct.Key, cc.Text, err)
+			return
+		}
+		cc.Expr = ex
+		if cc.Label == "" {
+			cc.Label = fmt.Sprintf("cs%d", len(ct.CallSites)+1)
+		}
+		ct.CallSites = append(ct.CallSites, CallSiteClause{Callee: f[0], Clause: cc})
 		return
 	}
 	if kind == "let" {
@@ -677,6 +728,7 @@ func needSpace(a, b tok) bool {
 }
 
 func parseSpecExpr(text string) (ast.Expr, error) {
+	text = strings.ReplaceAll(text, "$", "dollar_")
 	toks, err := scanTokens(text)
 	if err != nil {
 		return nil, err
